@@ -132,7 +132,7 @@ def minimise(check, case, v0, budget=48):
 
 
 def write_replay(prop, case, v, minimised_from=None):
-    d = os.path.join(VERIF_ROOT, "replays", prop)
+    d = os.path.join(os.environ.get("TSIM_REPLAY_DIR") or os.path.join(VERIF_ROOT, "replays"), prop)
     os.makedirs(d, exist_ok=True)
     case = {k: x for k, x in case.items() if k != "repro_case"}
     body = dict(property=prop, case=case, expect=dict(oracle=v["oracle"], keys=v.get("keys", {}), detail=v["detail"]))
